@@ -69,6 +69,19 @@ int main() {
     BEGIN(MemoryInterfaceUnit)
     F(x_page) F(y_page) F(z_page) F(x_size) F(y_size) F(page_mode) F(mmio_base)
     END
+    BEGIN(Dma)
+    RAW(interrupt_handler) F(enable_channel) F(active_channel) RAW(channels)
+#define CH(f) FS("ch." #f, channels[0].f, channels[1].f, 8)
+    CH(addr_src_low) CH(addr_src_high) CH(addr_dst_low) CH(addr_dst_high) CH(size0) CH(size1) CH(size2) CH(src_step0) CH(dst_step0) CH(src_step1) CH(dst_step1)
+    CH(src_step2) CH(dst_step2) CH(src_space) CH(dst_space) CH(dword_mode) CH(y) CH(z) CH(current_src) CH(current_dst) CH(counter0) CH(counter1) CH(counter2) CH(running) CH(ahbm_channel)
+    END
+    BEGIN(Ahbm)
+    F(busy_flag) RAW(channels)
+#define AC(f) FS("ch." #f, channels[0].f, channels[1].f, 3)
+    AC(unit_size) AC(burst_size) AC(direction) AC(dma_channel) AC(write_burst_start)
+    FS("ch.burst_queue", channels[0].burst_queue, channels[1].burst_queue, 3)
+    RAW(read_external8) RAW(write_external8) RAW(read_external16) RAW(write_external16) RAW(read_external32) RAW(write_external32)
+    END
     printf("}\n");
     return 0;
 }
